@@ -1,0 +1,31 @@
+//go:build verif
+// +build verif
+
+package rjson
+
+import "reflect"
+
+// VerifStack, when set, observes how the stack machines use Buffer.stackBuf:
+// ev 0 enter (a wrapper is about to call a machine with the Buffer's slice), 1 push, 2 pop,
+// 3 handler about to be called, 4 handler returned, 5 leave (the wrapper stored the slice back).
+// top is the machine's stack pointer after the step; val is the cell pushed or popped.
+// Used by the verification harness only.
+var VerifStack func(ev, top, length, capacity int, array uintptr, val int)
+
+func verifStack(ev, top int, stack []int) {
+	if VerifStack == nil {
+		return
+	}
+	val := 0
+	switch ev {
+	case 1:
+		val = stack[top-1]
+	case 2:
+		val = stack[top]
+	}
+	var ptr uintptr
+	if cap(stack) > 0 {
+		ptr = reflect.ValueOf(stack).Pointer()
+	}
+	VerifStack(ev, top, len(stack), cap(stack), ptr, val)
+}
